@@ -11,6 +11,8 @@ random ones, and Coq decides (i) the property instance (same value whenever the 
 returns), (ii) agreement of the Gallina evaluator on the original / on the model's
 output with fpy2.
 """
+import os
+import re
 import signal
 import time
 
@@ -34,6 +36,25 @@ MANIFEST = {
 HEADER = (COQ_HEADER +
           'From FpyV Require Import Num.Out Lang.Transforms.Common Lang.Transforms.WhileUnroll Lang.Transforms.ForUnroll '
           'Lang.Transforms.SplitLoop Lang.Transforms.IterElim Lang.Transforms.ReduceFusion Lang.Transforms.NumInt Cases.C08Cases.\n')
+
+HEADER += ('Definition vn (s : bool) (e c : Z) : cval := CNum (NF (FFin (RF s e c))).\n'
+           'Definition ei (z : Z) : expr := ENum (FFin (RF false 0 z)).\n'
+           'Definition en (s : bool) (e c : Z) : expr := ENum (FFin (RF s e c)).\n')
+
+_RX = [
+    (re.compile(r'\(CNum \(NF \(FFin \(RF (true|false) (\(-\d+\)%Z|\d+%Z) (\d+%Z)\)\)\)\)'), r'(vn \1 \2 \3)'),
+    (re.compile(r'\(ENum \(FFin \(RF false 0%Z (\d+%Z)\)\)\)'), r'(ei \1)'),
+    (re.compile(r'\(ENum \(FFin \(RF (true|false) (\(-\d+\)%Z|\d+%Z) (\d+%Z)\)\)\)'), r'(en \1 \2 \3)'),
+    (re.compile(re.escape('(CMPFixed (-1)%Z RTZ (Some 0%Z) (SP false false None None) false)')), 'CInteger'),
+]
+
+
+def compress(term):
+    """Shorter spellings of the same Coq terms (elaboration time is linear in the text)."""
+    for rx, rep in _RX:
+        term = rx.sub(rep, term)
+    return term
+
 
 KEY_ITER = 'iter-elim-loop-body-mutates-a-source-list'
 KEY_FUSE_WHILE = 'fuse-hoists-reduction-out-of-while-condition'
@@ -351,7 +372,7 @@ def run(ck):
         ck.props('Props/C08.v')
 
     fams = ['while', 'for', 'for', 'iter', 'iter', 'fuse']
-    nprog = 900 if thorough else 120
+    nprog = int(os.environ.get('C08_NPROG', 900 if thorough else 90))
     cases, info = [], []
     rejected = 0
     t0 = time.time()
@@ -403,7 +424,7 @@ def run(ck):
             ck.count('config:' + cfg[0])
             if cfg[0] in ('while', 'for', 'split'):
                 ck.count('where:' + ('all' if cfg[1] is None else cfg[1][0]))
-            case = f'({prog.coq()}, "main", {c_cfg(cfg)}, {real.coq()}, {clist(runs)})'
+            case = compress(f'({prog.coq()}, "main", {c_cfg(cfg)}, {real.coq()}, {clist(runs)})')
             cases.append(case)
             info.append((idx, prog, cfg, metas, tf))
             ck.nontriv((idx, repr(cfg[:4])))
